@@ -51,6 +51,11 @@ impl Phase for TokenSweep {
         if tight != src {
             judge(out, &toks, &tight, self.want, self.rule_prefix);
         }
+        if idx % 16 == 3 {
+            if let Some(planned) = gen::render_with_plan(&toks, _r, true) {
+                judge(out, &toks, &planned, self.want, self.rule_prefix);
+            }
+        }
         if hook {
             let states = observe::stop_parser_trace();
             out.count_n("H1 parser-step events", states.len() as u64);
@@ -181,6 +186,13 @@ pub fn check_ast(out: &mut Out, ast: &Ast, mode: Parens, rng: Option<&mut Rng>, 
     if tight != src {
         judge(out, &toks, &tight, Want::WellFormed, rule_prefix);
     }
+    // and under a random separator plan (Unicode whitespace, comments) now and then
+    if out.evaluations % 8 == 0 {
+        let mut r2 = Rng::new(out.evaluations ^ 0x5e9a);
+        if let Some(planned) = gen::render_with_plan(&toks, &mut r2, true) {
+            judge(out, &toks, &planned, Want::WellFormed, rule_prefix);
+        }
+    }
     out.nontrivial(&src);
     out.sample(|| format!("`{}`  ==  {}   [{:?}]", src, ast.sx(), mode));
     let _ = v;
@@ -249,6 +261,73 @@ impl Phase for AstRandom {
     }
 }
 
+/// long chains of one construct (130-1500 operands / levels): grouping must not depend on length
+struct LongChains {
+    n: u64,
+}
+
+impl Phase for LongChains {
+    fn name(&self) -> String {
+        "long operator chains and deep prefix / assignment / call chains (130-1500)".into()
+    }
+    fn len(&self) -> u64 {
+        self.n
+    }
+    fn run(&mut self, idx: u64, r: &mut Rng, out: &mut Out) {
+        let n = r.range(130, 1500);
+        let leaf = |i: usize| -> Ast {
+            if i % 3 == 0 {
+                Ast::Const(RV::Int((i % 7) as i64))
+            } else {
+                Ast::Read(["a", "b", "c"][i % 3].to_string())
+            }
+        };
+        let ast = match idx % 6 {
+            0 | 1 => {
+                // left-associative chain of one binary operator (or of two of equal precedence)
+                let op = *r.pick(&BINOPS);
+                let mut a = leaf(0);
+                for i in 1..n {
+                    a = Ast::Bin(op, Box::new(a), Box::new(leaf(i)));
+                }
+                a
+            },
+            2 => {
+                let mut a = leaf(0);
+                for _ in 0..n {
+                    a = Ast::Un(if r.chance(1, 2) { "neg" } else { "!" }, Box::new(a));
+                }
+                a
+            },
+            3 => {
+                let mut a = leaf(0);
+                for i in 0..n.min(900) {
+                    a = Ast::Assign("=", format!("v{}", i % 5), Box::new(a));
+                }
+                a
+            },
+            4 => {
+                let mut a = leaf(1);
+                for i in 0..n.min(900) {
+                    a = Ast::Call(["f", "g"][i % 2].to_string(), Box::new(a));
+                }
+                a
+            },
+            _ => {
+                // right-nested through parentheses
+                let op = *r.pick(&BINOPS);
+                let mut a = leaf(0);
+                for i in 1..n.min(700) {
+                    a = Ast::Bin(op, Box::new(leaf(i)), Box::new(a));
+                }
+                a
+            },
+        };
+        out.count("long chains");
+        check_ast(out, &ast, Parens::Minimal, Some(r), idx % 2 == 0, "precedence");
+    }
+}
+
 pub fn selfcheck() -> Result<String, String> {
     // README precedence facts through the reference parser
     let facts: [(&str, &str); 10] = [
@@ -302,8 +381,20 @@ pub fn phases(cfg: &Cfg) -> Vec<Box<dyn Phase>> {
             only_sequences: false,
             hook_every: 0,
         }),
+        Box::new(TokenSweep {
+            label: "all-operators+words".into(),
+            alphabet: gen::alphabet_all(),
+            maxlen: if t { 4 } else { 3 },
+            want: Want::WellFormed,
+            rule_prefix: "precedence",
+            only_sequences: false,
+            hook_every: 0,
+        }),
         Box::new(AstExhaustive {
             asts: enumerate_asts(3),
+        }),
+        Box::new(LongChains {
+            n: cfg.n(1_500, 60_000),
         }),
         Box::new(AstRandom {
             n: cfg.n(400_000, 6_000_000),
